@@ -147,9 +147,12 @@ class ThreadsPart(object):
       for i in range(nev):
         d = W.pick("delta", [0, 1, 2, 0.5, 1.5, 0.25, 3, 2.75, 0.1, 5])
         ln = W.weighted("len", [(1, 0), (2, 1), (3, 3), (2, 5)])
-        script.append(["add", d, ln, W.weighted("box", [(2, "list"),
-                                                        (2, "yielding"),
-                                                        (1, "stream")])])
+        script.append(["add", d, ln, W.weighted("box", [(3, "list"),
+                                                        (3, "yielding"),
+                                                        (1, "stream"),
+                                                        (1, "gen"),
+                                                        (1, "hub1"),
+                                                        (1, "tuple")])])
         if i >= pre and W.chance("idle", 2, 3):
           script.append(["idle", W.pick("idlek", [1, 3, 10, 30])])
       return {"part": part, "keep": keep, "pre": min(pre, nev),
@@ -282,6 +285,12 @@ class ThreadsPart(object):
           vals = YieldingIterable(vals, sched)
         elif box_kind == "stream":
           vals = ls.Stream(vals)
+        elif box_kind == "gen":
+          vals = (v for v in list(vals))
+        elif box_kind == "hub1":
+          vals = ls.thub(list(vals), 1)
+        elif box_kind == "tuple":
+          vals = tuple(vals)
         a = sched.stamp()
         mix.add(op[1], vals)
         b = sched.stamp()
